@@ -642,8 +642,21 @@ func runPrecomp(r *hx.R, n int, w *hx.W, mode string) error {
 			fwd = uint64(r.Range(0, 4000))
 		case 1:
 			fwd = uint64(r.Range(20_000, 60_000))
-		default:
+		case 2:
 			fwd = 0 // all available
+		default:
+			// exactly what the precompile's RequiredGas asks for this input (the flat cost the fork deducts before Run), or one
+			// next to it: Run then starts with (next to) nothing left
+			_ = hx.Recover(func() string {
+				qctx, _ := base.CacheContext()
+				sdb := k.NewStateDB(qctx, statedb.NewEmptyTxConfig(gethcommon.BytesToHash(qctx.HeaderHash())))
+				evmObj := k.NewEVM(qctx, evmtest.MOCK_GETH_MESSAGE, k.GetEVMConfig(qctx), evm.NewNoOpTracer(), sdb)
+				if p, ok := evmObj.Precompile(pc.addr); ok {
+					fwd = uint64(int64(p.RequiredGas(in)) + r.Range(-1, 1))
+				}
+				return "ok"
+			})
+			k.Bank.StateDB = nil
 		}
 		value := big.NewInt(0)
 		if r.Chance(1, 5) {
@@ -697,6 +710,23 @@ func runPrecomp(r *hx.R, n int, w *hx.W, mode string) error {
 		msg, err := signedEthTx(&deps, deps.Sender, nonce, &to, txValue, 3_000_000, gasPrice, data)
 		if err != nil {
 			return err
+		}
+		// reference: the same call with all the gas forwarded, on a branch of its own — how much the sub-call really costs
+		need := "-"
+		if fwd > 0 && shape >= 1 && shape <= 4 {
+			kindRef := kinds[shape]
+			refMsg, err := signedEthTx(&deps, deps.Sender, nonce, &to, txValue, 3_000_000, gasPrice, proxyCalldata(kindRef, pc.addr, value, 0, callSize, in))
+			if err == nil {
+				rctx, _ := base.CacheContext()
+				_ = hx.Recover(func() string {
+					resp, err := k.EthereumTx(sdk.WrapSDKContext(rctx), refMsg)
+					if err == nil && resp.VmError == "" && len(resp.Ret) >= 64 {
+						need = fmt.Sprintf("%d:%d", new(big.Int).SetBytes(resp.Ret[:32]).Uint64(), new(big.Int).SetBytes(resp.Ret[32:64]).Uint64())
+					}
+					return "ok"
+				})
+				k.Bank.StateDB = nil
+			}
 		}
 		cctx, _ := base.CacheContext()
 		before := storeDigests(deps.App, cctx, digestNames)
@@ -761,7 +791,7 @@ func runPrecomp(r *hx.R, n int, w *hx.W, mode string) error {
 		ch := changedStores(before, after)
 		w.Count("L2:" + shapeName)
 		w.Count("L2res:" + res)
-		w.Step(op, fmt.Sprintf("%s %s changed=%s", res, detail, items(ch)))
+		w.Step(op, fmt.Sprintf("%s %s changed=%s need=%s", res, detail, items(ch), need))
 	}
 	return nil
 }
